@@ -216,6 +216,22 @@ func (vm *VM) FindElement(name *IDName) (Element, error) {
 	return elem, nil
 }
 
+// FindElementInModule - what the name denotes in the given module right now (nil when it
+// denotes nothing there), whichever module the current call frame belongs to
+func (vm *VM) FindElementInModule(module *Module, name *IDName) Element {
+	nameStr := name.GetLiteral()
+	if elem, ok := vm.globals[nameStr]; ok {
+		return elem
+	}
+	if module == nil {
+		return nil
+	}
+	if scope, ok := vm.valueStack[module.GetID()]; ok {
+		return scope.GetValue(nameStr)
+	}
+	return nil
+}
+
 func (vm *VM) FindElementWithModule(name *IDName) (Element, *Module, error) {
 	nameStr := name.GetLiteral()
 	// look for global values first
